@@ -121,7 +121,8 @@ claim('C17',
       'lines tripped, inconsistent ratings, forced rejection with fixed step and shrinkt = 0) and one NaN answer of the '
       'linear solver injected at each of the first 10 solves for two integration methods. Loss of synchronism: two '
       'classical machines that keep converging while slipping (light machine x fault bus x 5 durations x add order x '
-      'method): the stability criterion recomputed from the stored angles must stop the run. Files: every token-boundary '
+      'method): the stability criterion recomputed from the stored angles must stop the run. Histories: one System through '
+      'all sequences of depth <= 3 (4) over solvable / unsolvable states, power flow after each, TDS and EIG on the last. Files: every token-boundary '
       'prefix of a json case, 8 truncations of an xlsx case, empty, wrong extension, missing - through andes.load and '
       'the CLI entry point.',
       'Rejecting bad data while loading (exception or None) counts as reported failure; a routine run() that raises '
